@@ -226,7 +226,12 @@ func (c *connection) sendWaitReply(callerCtx context.Context, msg Message) (Mess
 	var ch chan replyResult
 	if !fireAndForget {
 		key := msg.SystemBytes()
-		ch = e.replies.register(key)
+		if isData {
+			ch = e.replies.registerData(key)
+		} else {
+			ch = e.replies.register(key)
+		}
+
 		defer e.replies.deregister(key)
 	}
 
